@@ -4,7 +4,7 @@ CONSTANTS
   Periods = {0, 2, 3, 5}
   Waits = {0, 1, 4, 7}
   ImrVals <- ImrSmall
-  MaxDepth = 8
+  MaxDepth = 7
   MaxNest = 2
   RecordActs = FALSE
 INVARIANT TypeOK
